@@ -570,11 +570,12 @@ def sweep_cases(rng, tier):
             for dt in ("int32", "int64"):
                 out.append(_mk("exodus", S.exodus_dialect(rng, am, force={"coord": "coord", "blocks": "runs", "n_blocks": k,
                                                                             "dtype": dt, "shuffle": k % 2 == 0}), am, "sweep"))
-    # SCRIP
+    # SCRIP (a corner listed twice at the start / in the middle of a row is a corner; only trailing repeats pad)
     for am in mixed + unif:
         for lon in ("180", "360"):
             for ew in (0, 1):
-                out.append(_mk("scrip", S.scrip_dialect(rng, am, force={"lon": lon, "extra_w": ew}), am, "sweep"))
+                for dup in (None, "start", "middle"):
+                    out.append(_mk("scrip", S.scrip_dialect(rng, am, force={"lon": lon, "extra_w": ew, "dup": dup}), am, "sweep"))
     # face vertices
     for am in mixed + unif:
         for coords in ("lonlat", "xyz"):
@@ -863,7 +864,7 @@ def model_jobs(c, src, ex, image, g):
         rows = [list(zip(a, b)) for a, b in zip(image["clon"], image["clat"])]
         tk2 = Tok([v for r in rows for p in r for v in p])
         lonc = S.lon_conv(am.lon, d["lon"])
-        faces_tok = [[[tk2.t(lonc[v]), tk2.t(am.lat[v])] for v in f] for f in am.faces]
+        faces_tok = [[[tk2.t(lonc[v]), tk2.t(am.lat[v])] for v in f] for f in image["faces"]]
         jobs.append(("scrip_encode", sx([len(rows[0]), faces_tok]), "same",
                      ("grid_corner_lon/lat", [[[tk2.t(p[0]), tk2.t(p[1])] for p in r] for r in rows])))
     if fmt == "ugrid" and g is not None:
